@@ -382,10 +382,10 @@ def main():
     g = Gen(c.rng)
     quick = c.tier == "quick"
     shard = 100 if quick else 60
-    normal = g.op_cases(1500 if quick else 12000)
-    for _ in range(60 if quick else 600):
+    normal = g.op_cases(1500 if quick else 6000)
+    for _ in range(60 if quick else 300):
         normal.append(g.history(c.rng.choice([20, 40, 60, 90])))
-    for _ in range(20 if quick else 300):
+    for _ in range(20 if quick else 150):
         normal.append(g.system(c.rng.choice([60, 150, 400])))
     big = []          # long cases: one per shard of the model evaluation
     if quick:
